@@ -17,10 +17,12 @@ IntBound == 100000000
 VI(n) == [i |-> n]
 VL(s) == [l |-> s]
 VS(s) == [s |-> s]
+VZ(id) == [z |-> id]              \* a lazily produced list: a reference to a cell of the machine's heap
 UNDEF(w) == [u |-> w]
 IsI(v) == "i" \in DOMAIN v
 IsL(v) == "l" \in DOMAIN v
 IsS(v) == "s" \in DOMAIN v
+IsZ(v) == "z" \in DOMAIN v
 IsSc(v) == IsI(v) \/ IsS(v)          \* a scalar
 IsF(v) == "f" \in DOMAIN v
 IsU(v) == "u" \in DOMAIN v
